@@ -2626,4 +2626,40 @@ pub mod verif {
             self.next_sess_id = id;
         }
     }
+
+    /// Thin public wrappers around the crate-private Global Group Encrypted Data
+    /// Message Counter operations (property C12 of the verification harness).
+    #[cfg(feature = "groups")]
+    impl Sessions {
+        /// See [`Sessions::get_or_init_global_group_data_ctr`].
+        pub fn verif_get_or_init_global_group_data_ctr<C: Crypto>(
+            &mut self,
+            crypto: C,
+        ) -> Result<u32, Error> {
+            self.get_or_init_global_group_data_ctr(crypto)
+        }
+
+        /// See [`Sessions::reserve_global_group_data_ctr`].
+        pub fn verif_reserve_global_group_data_ctr<C: Crypto>(
+            &mut self,
+            crypto: C,
+        ) -> Result<(u32, Option<u32>), Error> {
+            self.reserve_global_group_data_ctr(crypto)
+        }
+
+        /// See [`Sessions::resume_global_group_data_ctr`].
+        pub fn verif_resume_global_group_data_ctr(&mut self, start: u32) {
+            self.resume_global_group_data_ctr(start)
+        }
+
+        /// See [`Sessions::uncover_global_group_data_ctr`].
+        pub fn verif_uncover_global_group_data_ctr(&mut self) {
+            self.uncover_global_group_data_ctr()
+        }
+
+        /// `(live counter, in-memory image of the stored boundary)`.
+        pub fn verif_global_group_data_ctr_state(&self) -> (u32, u32) {
+            (self.global_group_data_ctr, self.group_data_ctr_boundary)
+        }
+    }
 }
